@@ -129,7 +129,7 @@ Definition tkok (tk : ptok) : Prop :=
 (* the expression loop at level q stops in front of tk *)
 Definition stops (q : Z) (tk : ptok) : Prop := pty tk = token_SEMICOLON \/ precedence_of (pty tk) <= q.
 Definition follow (e : ex) (tk : ptok) : Prop :=
-  match e with EId _ | EInt _ _ => True | _ => stops (lvl e) tk end.
+  match e with EAtom _ _ => True | _ => stops (lvl e) tk end.
 
 (* parseExpression at level p on [ts ++ tk :: more] behaves as the expression loop entered with left = n
    after the last token of ts *)
@@ -181,33 +181,54 @@ Qed.
 Lemma len1 {A} (l : list A) (a : A) : List.length l = 1%nat -> exists x, l = [x].
 Proof. destruct l as [|x [|y l]]; cbn; try discriminate. eauto. Qed.
 
-Lemma parses_ident t : ttype t = token_IDENT -> forall p, Parses p [t] (NIdent t) tkok.
-Proof.
-  intros Ht p pts tk s x s' Hm [Hk1 Hk2] Hs [f Hel].
-  destruct pts as [|pt [|? ?]]; try discriminate Hm. cbn in Hm. injection Hm as Hm.
-  cbn [app] in Hs. pose proof (view_cur _ _ _ Hs) as Hc. pose proof (view_peek _ _ _ _ Hs) as Hp.
-  cbn [List.length Nat.sub skip] in Hel.
-  exists (S (S f)). eapply pe_head with (fn := "parseIdentifier"%string) (s1 := s).
-  - unfold curIs, pty. rewrite Hc, Hm, Ht. reflexivity.
-  - unfold pty. rewrite Hc, Hm, Ht. exact fact_ident.
-  - rewrite prefixFn_ident. unfold parseIdentifier. rewrite Hp, Hk1, Hc, Hm. reflexivity.
-  - now rewrite Hp.
-  - eapply exprLoop_mono; [|exact Hel]. lia.
-Qed.
+Lemma prefixFn_float f s : prefixFn conv (S f) "parseFloatLiteral" s = parseFloatLiteral conv s.
+Proof. reflexivity. Qed.
+Lemma prefixFn_string f s : prefixFn conv (S f) "parseStringLiteral" s = ROk (Some (NString (pk (ps_cur s)))) s.
+Proof. reflexivity. Qed.
+Lemma prefixFn_bool f s : prefixFn conv (S f) "parseBoolean" s = ROk (Some (NBool (pk (ps_cur s)) (curIs s token_TRUE))) s.
+Proof. reflexivity. Qed.
+Lemma prefixFn_control f s : prefixFn conv (S f) "parseControlExpression" s = ROk (Some (NControl (pk (ps_cur s)))) s.
+Proof. reflexivity. Qed.
+Lemma fact_float : table_get prefix_fns token_FLOAT = Some "parseFloatLiteral"%string. Proof. reflexivity. Qed.
+Lemma fact_string : table_get prefix_fns token_STRING = Some "parseStringLiteral"%string. Proof. reflexivity. Qed.
+Lemma fact_true : table_get prefix_fns token_TRUE = Some "parseBoolean"%string. Proof. reflexivity. Qed.
+Lemma fact_false : table_get prefix_fns token_FALSE = Some "parseBoolean"%string. Proof. reflexivity. Qed.
+Lemma fact_eol_noprefix0 : table_get prefix_fns token_EOL = None. Proof. reflexivity. Qed.
 
-Lemma parses_int t v : ttype t = token_INT -> conv_int conv (tlit t) = Some v ->
-  forall p, Parses p [t] (NInt t v) tkok.
+(* one-token operands *)
+Lemma parses_atom t a : atom_wf conv t a = true -> forall p, Parses p [t] (atom_node t a) tkok.
 Proof.
-  intros Ht Hv p pts tk s x s' Hm [Hk1 Hk2] Hs [f Hel].
+  intros Hwf p pts tk s x s' Hm [Hk1 Hk2] Hs [f Hel].
   destruct pts as [|pt [|? ?]]; try discriminate Hm. cbn in Hm. injection Hm as Hm.
   cbn [app] in Hs. pose proof (view_cur _ _ _ Hs) as Hc. pose proof (view_peek _ _ _ _ Hs) as Hp.
   cbn [List.length Nat.sub skip] in Hel.
-  exists (S (S f)). eapply pe_head with (fn := "parseIntegerLiteral"%string) (s1 := s).
-  - unfold curIs, pty. rewrite Hc, Hm, Ht. reflexivity.
-  - unfold pty. rewrite Hc, Hm, Ht. exact fact_int.
-  - rewrite prefixFn_int. unfold parseIntegerLiteral. rewrite Hc, Hm, Hv. reflexivity.
-  - now rewrite Hp.
-  - eapply exprLoop_mono; [|exact Hel]. lia.
+  assert (Hgo : forall fn, table_get prefix_fns (ttype t) = Some fn ->
+                prefixFn conv (S f) fn s = ROk (Some (atom_node t a)) s -> exists f', pe f' p s = ROk x s').
+  { intros fn Hfn Hpf. exists (S (S f)). eapply pe_head with (fn := fn) (s1 := s).
+    - unfold curIs, pty. rewrite Hc, Hm. apply Z.eqb_neq. intros E. rewrite E, fact_eol_noprefix0 in Hfn. discriminate Hfn.
+    - unfold pty. now rewrite Hc, Hm.
+    - exact Hpf.
+    - now rewrite Hp.
+    - eapply exprLoop_mono; [|exact Hel]. lia. }
+  destruct a as [|v|b| | |]; cbn [atom_wf atom_node] in *.
+  - apply Z.eqb_eq in Hwf. apply (Hgo "parseIdentifier"%string); [rewrite Hwf; exact fact_ident|].
+    rewrite prefixFn_ident. unfold parseIdentifier. rewrite Hp, Hk1, Hc, Hm. reflexivity.
+  - apply andb_true_iff in Hwf as [Ht Hv]. apply Z.eqb_eq in Ht.
+    destruct (conv_int conv (tlit t)) as [w|] eqn:Ew; [|discriminate]. apply Z.eqb_eq in Hv. subst w.
+    apply (Hgo "parseIntegerLiteral"%string); [rewrite Ht; exact fact_int|].
+    rewrite prefixFn_int. unfold parseIntegerLiteral. rewrite Hc, Hm, Ew. reflexivity.
+  - apply andb_true_iff in Hwf as [Ht Hv]. apply Z.eqb_eq in Ht.
+    destruct (conv_float conv (tlit t)) as [w|] eqn:Ew; [|discriminate]. apply N.eqb_eq in Hv. subst w.
+    apply (Hgo "parseFloatLiteral"%string); [rewrite Ht; exact fact_float|].
+    rewrite prefixFn_float. unfold parseFloatLiteral. rewrite Hc, Hm, Ew. reflexivity.
+  - apply Z.eqb_eq in Hwf. apply (Hgo "parseStringLiteral"%string); [rewrite Hwf; exact fact_string|].
+    rewrite prefixFn_string. now rewrite Hc, Hm.
+  - apply (Hgo "parseBoolean"%string).
+    + apply orb_true_iff in Hwf as [E|E]; apply Z.eqb_eq in E; rewrite E; [exact fact_true|exact fact_false].
+    + rewrite prefixFn_bool. unfold curIs, pty. now rewrite Hc, Hm.
+  - unfold has_prefix_fn in Hwf. destruct (table_get prefix_fns (ttype t)) as [g|] eqn:Eg; [|discriminate].
+    apply String.eqb_eq in Hwf. subst g. apply (Hgo "parseControlExpression"%string); [reflexivity|].
+    rewrite prefixFn_control. now rewrite Hc, Hm.
 Qed.
 
 Lemma map_nonempty {A B} (f : A -> B) l : map f l <> [] -> l <> [].
@@ -380,7 +401,7 @@ Qed.
 
 Lemma lvl_low e : wf_ex conv e = true -> 1 < lvl e.
 Proof.
-  destruct e as [t|t v|op r|op l r]; cbn [lvl wf_ex]; intros H; try lia.
+  destruct e as [t a|op r|op l r]; cbn [lvl wf_ex]; intros H; try lia.
   - destruct fact_prefix_val as (-> & _). lia.
   - repeat (apply andb_true_iff in H as [H ?]). pose proof (bin_q _ H). lia.
 Qed.
@@ -388,7 +409,7 @@ Qed.
 Lemma unparen_lvl c e : wf_ex conv e = true -> paren c e = false -> c <= 11 -> c <= lvl e.
 Proof.
   destruct fact_prefix_val as (E & _).
-  destruct e as [t|t v|op r|op l r]; cbn [lvl paren]; intros _ H Hc; rewrite ?E in *; lia.
+  destruct e as [t a|op r|op l r]; cbn [lvl paren]; intros _ H Hc; rewrite ?E in *; lia.
 Qed.
 
 Lemma follow_of_stops e q tk : stops q tk -> q <= lvl e -> follow e tk.
@@ -401,13 +422,37 @@ Lemma right_lvl op l r : wf_ex conv (EBin op l r) = true ->
 Proof.
   cbn [wf_ex]. intros H Hp. repeat (apply andb_true_iff in H as [H ?]).
   pose proof (bin_q _ H) as Hq. destruct fact_prefix_val as (E & _).
-  destruct r as [t|t v|rop rr|rop rl rr]; cbn [lvl right_ctx paren] in *; rewrite ?E in *; try lia.
+  destruct r as [t a|rop rr|rop rl rr]; cbn [lvl right_ctx paren] in *; rewrite ?E in *; try lia.
   match goal with X : negb _ = true |- _ => apply negb_true_iff in X; rewrite X in * end. lia.
+Qed.
+
+Lemma atom_has_prefix t a : atom_wf conv t a = true -> table_get prefix_fns (ttype t) <> None.
+Proof.
+  destruct a as [|v|b| | |]; cbn [atom_wf]; intros H.
+  - apply Z.eqb_eq in H. rewrite H. discriminate.
+  - apply andb_true_iff in H as [H _]. apply Z.eqb_eq in H. rewrite H. discriminate.
+  - apply andb_true_iff in H as [H _]. apply Z.eqb_eq in H. rewrite H. discriminate.
+  - apply Z.eqb_eq in H. rewrite H. discriminate.
+  - apply orb_true_iff in H as [H|H]; apply Z.eqb_eq in H; rewrite H; discriminate.
+  - unfold has_prefix_fn in H. destruct (table_get prefix_fns (ttype t)); [discriminate|discriminate H].
+Qed.
+
+(* the first token of body e has a prefix parse function *)
+Lemma body_hd_prefix e : wf_ex conv e = true ->
+  match body e with t :: _ => table_get prefix_fns (ttype t) <> None | [] => False end.
+Proof.
+  induction e as [t a|op r IH|op l IHl r IHr]; cbn [body wf_ex]; intros H.
+  - now apply atom_has_prefix in H.
+  - apply andb_true_iff in H as [H _]. apply prefix_op_fn in H. rewrite H. discriminate.
+  - repeat (apply andb_true_iff in H as [H ?]).
+    destruct (paren (precedence_of (ttype op)) l); cbn; [discriminate|].
+    match goal with X : wf_ex conv l = true |- _ => specialize (IHl X) end.
+    destruct (body l); [contradiction|exact IHl].
 Qed.
 
 Lemma body_nonempty e : body e <> [].
 Proof.
-  destruct e as [t|t v|op r|op l r]; cbn [body]; try discriminate.
+  destruct e as [t a|op r|op l r]; cbn [body]; try discriminate.
   intros H. apply app_eq_nil in H as [_ H]. discriminate H.
 Qed.
 Lemma toks_nonempty c e : toks c e <> [].
@@ -415,15 +460,8 @@ Proof. unfold toks. destruct (paren c e); [discriminate|apply body_nonempty]. Qe
 
 Lemma body_hd e : wf_ex conv e = true -> hd_not_rbracket (body e).
 Proof.
-  induction e as [t|t v|op r IH|op l IHl r IHr]; cbn [body wf_ex]; intros H.
-  - apply Z.eqb_eq in H. cbn. rewrite H. discriminate.
-  - apply andb_true_iff in H as [H _]. apply Z.eqb_eq in H. cbn. rewrite H. discriminate.
-  - apply andb_true_iff in H as [H _]. cbn. intros E. apply prefix_op_fn in H. rewrite E in H.
-    rewrite fact_rbracket_noprefix in H. discriminate H.
-  - repeat (apply andb_true_iff in H as [H ?]).
-    destruct (paren (precedence_of (ttype op)) l); cbn; [discriminate|].
-    match goal with X : wf_ex conv l = true |- _ => specialize (IHl X) end.
-    destruct (body l); [contradiction|exact IHl].
+  intros H. apply body_hd_prefix in H. destruct (body e) as [|t l]; [contradiction|].
+  cbn. intros E. rewrite E, fact_rbracket_noprefix in H. now apply H.
 Qed.
 Lemma toks_hd c e : wf_ex conv e = true -> hd_not_rbracket (toks c e).
 Proof. intros H. unfold toks. destruct (paren c e); [cbn; discriminate|now apply body_hd]. Qed.
@@ -457,12 +495,9 @@ Qed.
 
 Theorem body_ok : forall e, wf_ex conv e = true -> BodyOk e.
 Proof.
-  induction e as [t|t v|op r IH|op l IHl r IHr]; intros Hwf p Hp.
-  - cbn [wf_ex] in Hwf. apply Z.eqb_eq in Hwf.
-    eapply parses_weaken; [|apply parses_ident; exact Hwf]. intros tk [H _]. exact H.
-  - cbn [wf_ex] in Hwf. apply andb_true_iff in Hwf as [Ht Hv]. apply Z.eqb_eq in Ht.
-    destruct (conv_int conv (tlit t)) as [w|] eqn:Ew; [|discriminate]. apply Z.eqb_eq in Hv. subst w.
-    eapply parses_weaken; [|apply parses_int; [exact Ht|exact Ew]]. intros tk [H _]. exact H.
+  induction e as [t a|op r IH|op l IHl r IHr]; intros Hwf p Hp.
+  - cbn [wf_ex] in Hwf. cbn [body to_node].
+    eapply parses_weaken; [|apply parses_atom; exact Hwf]. intros tk [H _]. exact H.
   - pose proof Hwf as Hwf0. cbn [wf_ex] in Hwf. apply andb_true_iff in Hwf as [Hop Hr].
     pose proof (toks_of_body r Hr (IH Hr)) as HT.
     change (body (EPre op r)) with (op :: toks ast_PREFIX r). cbn [to_node].
@@ -472,7 +507,7 @@ Proof.
       split; [exact Hk|]. intros Hpar. apply follow_of_stops with (q := ast_PREFIX); [exact Hf|].
       apply unparen_lvl; [exact Hr|exact Hpar|rewrite E11; lia].
     + apply HT. intros Hpar. pose proof (unparen_lvl _ _ Hr Hpar ltac:(rewrite E11; lia)) as Hl.
-      destruct r as [t|t v|rop rr|rop rl rr]; cbn [lvl paren] in *; try (rewrite ?E11 in *; lia).
+      destruct r as [t a|rop rr|rop rl rr]; cbn [lvl paren] in *; try (rewrite ?E11 in *; lia).
       cbn [wf_ex] in Hr. repeat (apply andb_true_iff in Hr as [Hr ?]). pose proof (bin_q _ Hr).
       rewrite ?E11 in *. lia.
   - pose proof Hwf as Hwf0. cbn [wf_ex] in Hwf. repeat (apply andb_true_iff in Hwf as [Hwf ?]).
@@ -549,20 +584,7 @@ Proof.
   unfold nextToken. destruct (ps_rest s) as [|t r]; cbn; repeat split; try reflexivity. now rewrite skipn_nil.
 Qed.
 
-Lemma body_hd_prefix conv e : wf_ex conv e = true ->
-  match body e with t :: _ => table_get prefix_fns (ttype t) <> None /\ ttype t <> token_RETURN | [] => False end.
-Proof.
-  induction e as [t|t v|op r IH|op l IHl r IHr]; cbn [body wf_ex]; intros H.
-  - apply Z.eqb_eq in H. cbn. rewrite H. split; discriminate.
-  - apply andb_true_iff in H as [H _]. apply Z.eqb_eq in H. cbn. rewrite H. split; discriminate.
-  - apply andb_true_iff in H as [H _]. pose proof (prefix_op_ok _ H) as E. apply prefix_op_fn in H. rewrite H.
-    unfold preop_ok in E. repeat (apply andb_true_iff in E as [E ?]).
-    split; [discriminate|]. intros X. match goal with Y : negb (ttype op =? token_RETURN) = true |- _ => rewrite X in Y; discriminate Y end.
-  - repeat (apply andb_true_iff in H as [H ?]).
-    destruct (paren (precedence_of (ttype op)) l); cbn; [split; discriminate|].
-    match goal with X : wf_ex conv l = true |- _ => specialize (IHl X) end.
-    destruct (body l); [contradiction|exact IHl].
-Qed.
+Lemma fact_return_noprefix : table_get prefix_fns token_RETURN = None. Proof. reflexivity. Qed.
 
 Definition eof_ptok : ptok := mkPtok (mkTok token_EOF []) false false.
 
@@ -588,7 +610,7 @@ Proof.
   assert (Hexpr : exists f, parseExpression conv f ast_LOWEST s = ROk (Some (to_node e)) se).
   { pose proof (toks_ok conv e Hwf 0 ast_LOWEST) as HT.
     assert (Hpar : paren 0 e = false).
-    { destruct e as [t|t v|op r|op l r]; cbn [paren]; try reflexivity.
+    { destruct e as [t a|op r|op l r]; cbn [paren]; try reflexivity.
       cbn [wf_ex] in Hwf. repeat (apply andb_true_iff in Hwf as [Hwf ?]). pose proof (bin_q _ Hwf). lia. }
     unfold toks in HT. rewrite Hpar in HT.
     eapply (HT ltac:(intros _; rewrite E1; now apply (lvl_low conv)) pts eof_ptok); [exact Hm| |exact Hv|].
@@ -603,7 +625,8 @@ Proof.
   destruct pts as [|p1 pts']; [congruence|].
   pose proof (view_cur _ _ _ Hv) as Hc.
   destruct (body e) as [|t1 bt] eqn:Eb; [contradiction|]. cbn [map] in Hm. injection Hm as Hp1 Hm'.
-  destruct Hhd as [Hpre Hret].
+  rename Hhd into Hpre.
+  assert (Hret : ttype t1 <> token_RETURN) by (intros X; rewrite X, fact_return_noprefix in Hpre; now apply Hpre).
   assert (Hcur_eof : curIs s token_EOF = false).
   { unfold curIs, pty. rewrite Hc, Hp1. apply Z.eqb_neq. intros X. rewrite X in Hpre. now apply Hpre. }
   assert (Hcur_eol : curIs s token_EOL = false).
@@ -627,4 +650,27 @@ Proof.
   destruct (skip_fields (2 + (List.length (t1 :: bt) - 1 + 1)) z) as (-> & -> & ->).
   cbn [ps_errs ps_cont ps_rest z rev].
   rewrite skipn_all2; [reflexivity|]. cbn [List.length] in Hlen |- *. lia.
+Qed.
+
+(* ---------- consequence for C03: formatted text is a fixpoint at token level ---------- *)
+Lemma of_to_node e : of_node (to_node e) = Some e.
+Proof.
+  induction e as [t a|op r IH|op l IHl r IHr]; cbn [to_node of_node].
+  - destruct a; cbn [atom_node of_node]; try reflexivity. now rewrite Bool.eqb_reflx.
+  - now rewrite IH.
+  - now rewrite IHl, IHr.
+Qed.
+
+(* parsing the tokens of formatted fragment text and formatting again gives the same tokens *)
+Theorem fragment_format_fixpoint conv e pts :
+  wf_ex conv e = true -> map pk pts = body e ->
+  exists f0, forall fuel, (f0 <= fuel)%nat ->
+    match parse_program conv fuel token_EOF pts with
+    | POk r => frag_tokens conv (pr_tree r) = Some (body e)
+    | _ => False
+    end.
+Proof.
+  intros Hwf Hm. destruct (fragment_program_roundtrip conv e pts Hwf Hm) as [f0 H].
+  exists f0. intros fuel Hle. rewrite (H fuel Hle). cbn [pr_tree frag_tokens].
+  now rewrite of_to_node, Hwf.
 Qed.
